@@ -6,7 +6,7 @@ from wcommon import *
 
 def run(tier, seed):
     ck = Check("C06", tier, seed)
-    ck.trusted += ["coq/Wasm/Sem.v (host functions that return, panic, exit, re-enter), tied to both engines call by call", "harness/c06, generator, checks/c06.py"]
+    ck.trusted += ["coq/Engine/CallEngine.v: hand transcription of callWithStack's deferred closure + dispatch loop and of callEngine.call/recoverOnCall; tied by reading execCtx.exitCode / len(stack), len(frames) from the real call engines after every call (overlay exports in harness/c06/x_*.go)", "coq/Wasm/Sem.v (host functions that return, panic, exit, re-enter), tied to both engines call by call", "harness/c06, generator, checks/c06.py"]
     ck.assumptions += ["after a guest exit the module is closed: the model is compared up to the exiting call and the oracle checks that every later call reports the same exit code",
                        "stack exhaustion is compared as a class (the engines' limits differ); native unwinding is exercised, not modelled"]
     proofs_ok = ck.proofs()
@@ -79,6 +79,41 @@ def run(tier, seed):
             if code >= 1000 and cuts[k] is not None: continue
             viol("engine-vs-spec-" + eng, {"kind": "engine-vs-spec", "engine": eng},
                  {"code": code, "meaning": "i>=0 first differing call; 1000 host log; 1001 globals; 1002 memory; 1003 pages", "case": cases[idx[k]]})
+    # ---- the call engines' call-boundary state (Engine/CallEngine.v): per api.Function object, the outcome classes of
+    # its calls in order and the state read from the real call engine after each; the model replays the canonical
+    # trace of every outcome class and must leave the same state (compiler: exit code; interpreter: empty stacks)
+    ce_items, ce_idx, ie_items, ie_idx = [], [], [], []
+    dist["call_engine_states_read"] = 0
+    for i, c in enumerate(cases):
+        for eng in ("compiler", "interp"):
+            eo = c["engines"][eng]
+            if eo.get("err") or not eo.get("ce"): continue
+            per_fn = {}
+            cut = eo.get("closed_at", -1)
+            for j, (cl, o, st) in enumerate(zip(c["calls"], eo["obs"], eo["ce"])):
+                if cut is not None and cut >= 0 and j > cut: break      # after the module is closed calls fail before reaching the engine
+                t = o.get("trap") or ""
+                cls = trap_code(t) if t else 0
+                if t and cls == 0: continue
+                per_fn.setdefault(cl[0], []).append((cls, st))
+                dist["call_engine_states_read"] += 1
+            for fn, seq in per_fn.items():
+                if eng == "compiler":
+                    ce_items.append("[" + "; ".join("(%d, %d)" % (cls, 0 if st[0] == 0 else 1) for cls, st in seq) + "]"); ce_idx.append((i, fn, seq))
+                else:
+                    ie_items.append("[" + "; ".join("(%d, %d)" % (st[0], st[1]) for cls, st in seq) + "]"); ie_idx.append((i, fn, seq))
+    for name, items, idx, fn_ in (("c06_ce", ce_items, ce_idx, "ce_mismatches"), ("c06_ie", ie_items, ie_idx, "ie_mismatches")):
+        if not items: continue
+        mism, err = eval_dcases(name, items, shard=4000, imports="Engine.CallEngine", fn=fn_)
+        if err:
+            viol("model-eval", {"kind": "model-eval", "what": "call-engine"}, {"err": err}, no_input=True); continue
+        for k, code in mism[:2]:
+            ci, fn, seq = idx[k]
+            viol("call-engine-state", {"kind": "call-engine-state", "engine": "compiler" if name == "c06_ce" else "interp"},
+                 {"function": fn, "calls_on_this_function_object": [dict(outcome_class=cls, state_after=st) for cls, st in seq],
+                  "first_differing_call_on_the_object": code,
+                  "meaning": "compiler: state = [execCtx.exitCode, -1], must be 0 (ExitCodeOK) after every call; interpreter: [len(stack), len(frames)], must be [0, 0]; 1000+i: the model's outcome class of call i differs",
+                  "case": cases[ci]})
     for c in cases:
         a, b = c["engines"]["interp"], c["engines"]["compiler"]
         if a.get("err") or b.get("err"): continue
